@@ -2,7 +2,10 @@ module verifharness
 
 go 1.20
 
-require github.com/uber-go/tally/v4 v4.0.0
+require (
+	github.com/cactus/go-statsd-client/v5 v5.0.0
+	github.com/uber-go/tally/v4 v4.0.0
+)
 
 require (
 	github.com/golang/mock v1.6.0 // indirect
